@@ -7,6 +7,8 @@ import (
 	"encoding/hex"
 	"encoding/json"
 	"fmt"
+	"github.com/decred/dcrd/dcrec/secp256k1/v4"
+	gcrypto "github.com/elnosh/gonuts/crypto"
 	"io"
 	"net/http"
 	"sort"
@@ -369,6 +371,19 @@ func (w *World) Unblind(mint string, outs []*HOutput, sigs []any) []*HProof {
 		C, err := hUnblind(C_, outs[i].R, K)
 		if err != nil {
 			continue
+		}
+		// C10, on every value that arises: the library's own unblinding gives the same point, gives
+		// it again when called again with the same blinding-factor object, and leaves that object alone
+		if cp, e := parsePoint(C_); e == nil && outs[i].R != nil {
+			rb := outs[i].R.Bytes()
+			rPriv := secp256k1.PrivKeyFromBytes(rb[:])
+			c1 := pointHex(gcrypto.UnblindSignature(cp, rPriv, K))
+			c2 := pointHex(gcrypto.UnblindSignature(cp, rPriv, K))
+			after := rPriv.Key.Bytes()
+			w.S.Stats["c10_lib_unblind_checked"]++
+			if c1 != C || c2 != C || after != rb {
+				w.Book.Violate("C10.lib_unblind", "unblind", "crypto.UnblindSignature disagrees with the independent unblinding or is not repeatable: first %s second %s expected %s, blinding factor unchanged=%v", short(c1), short(c2), short(C), after == rb)
+			}
 		}
 		p := &HProof{Amount: uint64(amtf), ID: id, Secret: outs[i].Secret, C: C, R: outs[i].R, B_: outs[i].B_, Mint: mint, Witness: outs[i].ProofWitness}
 		if d, ok := sm["dleq"].(map[string]any); ok {
